@@ -47,6 +47,7 @@ int main(int argc, char** argv) {
       cholmod_sparse* As = cholmod_l_dense_to_sparse(Ad, 1, &c);
       cholmod_dense* bd = cholmod_l_allocate_dense(n, 1, n, CHOLMOD_REAL, &c);
       for (int i = 0; i < n; i++) ((double*)bd->x)[i] = b[i];
+      if (getenv("C12_VERBOSE")) { printf("=== P %d T %d\n", p, t); fflush(stdout); }   // segment marker for the solver's own log
       cholmod_dense* x = nnls_normal_block3(As, bd, getenv("C12_VERBOSE")?1:0, &c);
       std::vector<uint64_t> xb(n); int nz = 0;
       for (int i = 0; i < n; i++) { xb[i] = bits(((double*)x->x)[i]); if (((double*)x->x)[i] == 0) nz++; }
